@@ -92,6 +92,24 @@ class Prop(PropBase):
         z = self._mk(case)
         q, seen, ft = self._arg(case, z)
         out = {"seen": [X.rat(X.frac(float(v))) for v in seen.ravel()], "seen_shape": list(seen.shape)}
+        # argument checks: only baseband signals (TypeError), only frequency Quantities, no more axes than the sample shape
+        rej = []
+        real = pb.Signal(np.zeros((8, 2)), sample_rate=z.sample_rate)
+        inten = pb.IntensitySignal(np.zeros((8, 2)), sample_rate=z.sample_rate, center_freq=z.center_freq, chan_bw=z.sample_rate)
+        for lab, fn, exc in (("freq_shift(Signal)", lambda: pb.freq_shift(real, 1 * u.Hz), TypeError),
+                             ("freq_shift(IntensitySignal)", lambda: pb.freq_shift(inten, 1 * u.Hz), TypeError),
+                             ("a bare number as shift", lambda: pb.freq_shift(z, 1.0), ValueError),
+                             ("a time Quantity as shift", lambda: pb.freq_shift(z, 1.0 * u.s), ValueError),
+                             ("a shift with as many axes as the signal", lambda: pb.freq_shift(z, np.ones((1,) * z.ndim) * u.Hz), ValueError),
+                             ("a zero shift with as many axes as the signal", lambda: pb.freq_shift(z, np.zeros((1,) * z.ndim) * u.Hz), ValueError)):
+            try:
+                fn()
+                rej.append(lab + " accepted")
+            except exc:
+                pass
+            except Exception as e:      # noqa
+                rej.append(f"{lab}: {err_name(e)} instead of {exc.__name__}")
+        out["rejects"] = rej
         try:
             y = pb.freq_shift(z, q)
         except Exception as e:
@@ -166,6 +184,7 @@ class Prop(PropBase):
 
     def spec_violation(self, case, code):
         np = self.np
+        # (argument checks that the property does not state are observed in `rejects` for the evidence, not judged)
         if "err" in code:
             return f"raised {code['err']}"
         if not code["meta"]:
